@@ -589,8 +589,8 @@ def _evaluator_self_consistent(e: str, case: GE.Case, proto, j: int) -> bool:
     the evaluator is asked again on the same inputs.  An evaluator that does not reproduce its own outputs on a
     re-encoding of the same model has no say about that model (observed: onnxruntime 1.30 miscomputes a model
     whose function is called from the main graph and from a control-flow branch, and computes the onnx-inlined
-    form of the very same model correctly)."""
-    import onnx.inliner
+    form of the very same model correctly).  A second re-encoding routes direct input/initializer outputs
+    through Identity nodes."""
 
     if j >= 1000:
         k = j - 1000
@@ -605,23 +605,66 @@ def _evaluator_self_consistent(e: str, case: GE.Case, proto, j: int) -> bool:
         return rs[0] if rs else None
 
     for original, reference in ((case.proto, base), (proto, None)):
-        if not original.functions:
-            continue
-        try:
-            inlined = onnx.inliner.inline_local_functions(original)
-        except Exception:  # noqa: BLE001 - no re-encoding available: nothing learnt
-            continue
-        if reference is None:
-            r0 = run(original)
-            if r0 is None or not r0.ok:
+        for reencode in (_reencode_inlined, _reencode_outputs_through_identity):
+            try:
+                other = reencode(original)
+            except Exception:  # noqa: BLE001 - no re-encoding available: nothing learnt
+                other = None
+            if other is None:
                 continue
-            reference = r0.outputs
-        r1 = run(inlined)
-        if r1 is None or not r1.ok:
-            continue
-        if GE.same_outputs(reference, r1.outputs) is not None:
-            return False
+            if reference is None:
+                r0 = run(original)
+                if r0 is None or not r0.ok:
+                    break
+                reference = r0.outputs
+            r1 = run(other)
+            if r1 is not None and not r1.ok and "nondeterministic" in (r1.reason or ""):
+                return False  # repeated runs of an equivalent encoding disagree with each other
+            if r1 is None or not r1.ok:
+                continue
+            if GE.same_outputs(reference, r1.outputs) is not None:
+                return False
     return True
+
+
+def _reencode_inlined(model_proto):
+    """The same model with its functions inlined by onnx's own inliner (None when it has none)."""
+    import onnx.inliner
+
+    if not model_proto.functions:
+        return None
+    return onnx.inliner.inline_local_functions(model_proto)
+
+
+def _reencode_outputs_through_identity(model_proto):
+    """The same model with every graph output that is directly a graph input or an initializer (or is
+    listed twice) routed through a fresh Identity node - a proto-level rewrite written for the harness.
+    Observed need: onnxruntime 1.30 lets a training-mode BatchNormalization update its running-statistics
+    INPUT buffer in place, so an initializer that is also a graph output comes back modified."""
+    import onnx
+
+    g = model_proto.graph
+    direct = {i.name for i in g.input} | {t.name for t in g.initializer}
+    seen: set[str] = set()
+    todo = []
+    for k, o in enumerate(g.output):
+        if o.name in direct or o.name in seen:
+            todo.append(k)
+        seen.add(o.name)
+    if not todo:
+        return None
+    out = onnx.ModelProto()
+    out.CopyFrom(model_proto)
+    taken = {n for node in out.graph.node for n in node.output} | direct
+    for k in todo:
+        o = out.graph.output[k]
+        fresh = f"{o.name}__vf_out{k}"
+        while fresh in taken:
+            fresh += "_"
+        taken.add(fresh)
+        out.graph.node.append(onnx.helper.make_node("Identity", [o.name], [fresh], name=f"vf_identity_out{k}"))
+        o.name = fresh
+    return out
 
 
 # ---- shrinking and signature -------------------------------------------------------------------------------
